@@ -1194,7 +1194,11 @@ func (s *Store) AssignManualServiceVIPs(idx uint64, psn structs.PeeredServiceNam
 		}
 	}
 
-	return true, maps.SliceOfKeys(modifiedEntries), nil
+	unassignedFrom := maps.SliceOfKeys(modifiedEntries)
+	sort.Slice(unassignedFrom, func(i, j int) bool {
+		return unassignedFrom[i].String() < unassignedFrom[j].String()
+	})
+	return true, unassignedFrom, nil
 }
 
 func updateVirtualIPMaxIndexes(txn WriteTxn, idx uint64, partition, peerName string) error {
